@@ -185,6 +185,14 @@ def h_mod(env):
         env.eq('rshift', k.sval(x >> b), a >> b)
 
 
+def h_glue(env):
+    """lsb executed by m parties (real masks from PRSS or dealers, real opening), random_bits ideal m-party."""
+    P = env.params
+    run = l1.run_glue(env, P['m'], P['t'], P['prss'], P['prog'], P['l'])
+    l1.assert_outputs(env, run, P['l'])
+    l1.assert_sharing(env, run, P['t'])
+
+
 def h_twin_lt(env):
     """seeded wrong oracle: claims x < y is (a <= b): must come back violated with a replayed model."""
     k = _l2(env, ideal_zero_test=True, fork_mod=8)
@@ -228,5 +236,8 @@ def instances(tier):
         for b in (2, 3):
             out.append(Inst(f'L2:floordiv[l={l},b={b}]', h_mod, dict(l=l, b=b, what='floordiv', rb_cap=6), timeout=3000, max_paths=20000))
         out.append(Inst(f'L2:rshift[l={l},b=1]', h_mod, dict(l=l, b=1, what='rshift', rb_cap=6), timeout=3000, max_paths=20000))
+    for (m, t) in ([(3, 1)] if tier == 'quick' else [(3, 1), (4, 1), (5, 2)]):
+        for prss in (True, False):
+            out.append(Inst(f'glue:lsb[m={m},t={t},l=4,prss={int(prss)}]', h_glue, dict(m=m, t=t, prss=prss, prog='lsb', l=4), timeout=1200))
     out.append(Inst('twin_lt_is_le', h_twin_lt, {}, twin=True, expect='violated', timeout=600))
     return out
